@@ -29,6 +29,9 @@ Streams (three-way, DESIGN 5.C02)
            Model.ClassLookup.jediBoundCls, CPython vs pyBoundCls (exact; ALL hierarchies of <= 3
            classes over 2 names in the thorough tier, random larger ones)
 """
+import itertools
+import json
+
 import common
 from common import short
 from gen import pycore as P
@@ -568,6 +571,85 @@ def run_bind(ctx, answers, how):
             judge_bind_oracle(ctx, recs, t['sig'], t['call'], how)
 
 
+# ------------------------------------------------------------------ stream `setiter`
+# ValueSet.iterate (jedi/inference/base_value.py) on a set of stub members whose element streams are known,
+# against Model/SetIter (the zipping function is the one the translator found in the source).
+
+def setiter_items(ctx):
+    rng = ctx.subrng('setiter')
+    items = [[[1], [2, 3]], [[1, 2, 3], [4]], [[], [1]], [[1]], [], [[], []], [[1, 2], [3, 4], [5]]]
+    # exhaustive: up to 3 members with 0..3 elements each
+    for n in range(1, 4):
+        for lens in itertools.product(range(4), repeat=n):
+            t, it = 0, []
+            for ln in lens:
+                it.append(list(range(t + 1, t + 1 + ln)))
+                t += ln
+            items.append(it)
+    for _ in range(ctx.size(60, 2000)):
+        t, it = 0, []
+        for _ in range(rng.randint(2, 6)):
+            ln = rng.choice([0, 1, 1, 2, 3, 5, 8])
+            it.append(list(range(t + 1, t + 1 + ln)))
+            t += ln
+        items.append(it)
+    return items
+
+
+def real_setiter(streams):
+    """the real ValueSet.iterate / iterate_values on stub members -> (columns as sorted tag lists, all values)"""
+    from jedi.inference.base_value import ValueSet, iterate_values
+
+    class Lazy:
+        def __init__(self, tag):
+            self.tag = tag
+
+        def infer(self):
+            return ValueSet([self.tag])
+
+    class Member:
+        def __init__(self, tags):
+            self.tags = tags
+
+        def iterate(self, contextualized_node=None, is_async=False):
+            return iter([Lazy(t) for t in self.tags])
+    vs = ValueSet([Member(s) for s in streams])
+    cols = []
+    for merged in vs.iterate():
+        if isinstance(merged, Lazy):
+            cols.append([merged.tag])
+        else:
+            cols.append(sorted(l.tag for l in merged.data))
+    allv = sorted(iterate_values(ValueSet([Member(s) for s in streams]))._set)
+    return cols, allv
+
+
+def judge_setiter(ctx, items, answers):
+    how = ('jedi.inference.base_value.ValueSet([members]).iterate() / iterate_values(..) with stub members that '
+           'yield known element streams')
+    for streams, ans in zip(items, answers if answers is not None else [None] * len(items)):
+        try:
+            cols, allv = real_setiter(streams)
+        except Exception as e:   # noqa
+            ctx.count('raised', ('setiter', json.dumps(streams)), nontrivial=False, bucket=type(e).__name__)
+            ctx.tie_broken('correspondence:setiter', short({'streams': streams, 'raised': repr(e)}))
+            continue
+        lens = sorted(len(s) for s in streams)
+        ctx.count('setiter', json.dumps(streams), nontrivial=len(set(lens)) > 1,
+                  bucket='members=%d/%s' % (len(streams), 'ragged' if len(set(lens)) > 1 else 'even'))
+        if ans is not None:
+            if ans.get('cols') is None or [sorted(c) for c in ans['cols']] != cols or sorted(ans['all']) != allv:
+                ctx.tie_broken('correspondence:setiter', short({'streams': streams, 'impl': [cols, allv], 'model': ans}))
+        # direct oracle: what a Python `for` over EACH member yields at position k must be in the k-th merged
+        # value, and the union must be every element (this is what the run of `for x in <either member>` sees)
+        want_all = sorted(t for s in streams for t in s)
+        missing = [(k, t) for s in streams for k, t in enumerate(s) if k >= len(cols) or t not in cols[k]]
+        if missing or allv != want_all:
+            ctx.fail('setiter', 'iterating a set of iterables loses (or invents) elements of a member',
+                     {'streams': streams, 'shape': 'set-iteration'}, expected={'all': want_all},
+                     observed={'columns': cols, 'all': allv, 'missing(position, element)': missing[:6]}, how=how)
+
+
 def programs(ctx):
     rng = ctx.subrng('gen')
     n = ctx.size(300, 8000)
@@ -586,6 +668,9 @@ def run(ctx):
     nbind = len(reqs) - len(progs)
     lookup_items = c02_flow.lookup_items(ctx)
     reqs += [{'op': 'lookup', 'hier': it['hier'], 'names': c02_flow.LOOKUP_NAMES} for it in lookup_items]
+    nlookup = len(lookup_items)
+    si_items = setiter_items(ctx)
+    reqs += [{'op': 'setiter', 'streams': it} for it in si_items]
     # the Lean driver (one call) runs while the real code is exercised in worker processes
     with ThreadPoolExecutor(1) as pool:
         fut = pool.submit(common.run_driver_parallel, 'C02', reqs) if ctx.model_ok else None
@@ -645,7 +730,8 @@ def run(ctx):
                 ctx.tie_broken('correspondence:exec', short({'source': src, 'line': rec['line'],
                                                              'cpython': 'probe not reached', 'model': m['exec']}, 1500))
     run_bind(ctx, answers[len(progs):len(progs) + nbind] if ctx.model_ok else None, how)
-    c02_flow.judge_lookup(ctx, lookup_items, lookup_outs, answers[len(progs) + nbind:])
+    c02_flow.judge_lookup(ctx, lookup_items, lookup_outs, answers[len(progs) + nbind:len(progs) + nbind + nlookup])
+    judge_setiter(ctx, si_items, answers[len(progs) + nbind + nlookup:] if ctx.model_ok else None)
     # ---- beyond the fragment: argument binding of methods / lambdas, judged by the direct oracle only
     seeds = ['%s-argbind-%d' % (ctx.seed, i) for i in range(ctx.size(40, 800))]
     for recs in common.parallel_map('props.c02', 'analyse_argbind', seeds):
